@@ -109,10 +109,11 @@ inductive TEff : Core → Core → Prop
                       sent := (r.rid, c.tx, bytes) :: c.sent,
                       pos := .inflight m r c.tx (c.now + r.timeout),
                       log := if logged then .tx bytes :: c.log else c.log }
-  /-- a request is taken from the queue but cannot be encoded or written -/
+  /-- a request is taken from the queue but cannot be encoded, the bytes buffered before it are
+      malformed, or it cannot be written -/
   | dequeueFail (c : Core) (m : Nat) (r : Req) (q : List Cmd) (res : Res) :
       c.alive = true → c.pos = .idle m → c.queue = .req r :: q →
-      ((∃ e, res = .badReq e) ∨ res = .io .pipe) →
+      ((∃ e, res = .badReq e) ∨ res = .io .pipe ∨ (∃ e, res = frameErrRes e)) →
       TEff c (afterCore { c with queue := q, tx := nextTx c.tx,
                                  dequeued := (r.rid, c.tx) :: c.dequeued,
                                  log := doneEntry c r res :: c.log } m res)
@@ -241,6 +242,19 @@ theorem startPhase_eff (F : Framing σ) (s s' : State σ) (ha : s.alive = true)
   · cases h; exact TEff.startWait (core s) ha hp
   · cases h; exact TEff.startFail (core s) _ ha hp
 
+theorem discardBuffered_err (F : Framing σ) (fuel : Nat) (st : σ) (rb : RB) (res : Res)
+    (x : σ × RB) (h : discardBuffered F fuel st rb = (some res, x)) : ∃ e, res = frameErrRes e := by
+  induction fuel generalizing st rb with
+  | zero => simp [discardBuffered] at h
+  | succ n ih =>
+    unfold discardBuffered at h
+    split at h
+    · exact ih _ _ h
+    · simp at h
+    · rename_i e _ _ _
+      simp at h
+      exact ⟨e, h.1.symm⟩
+
 theorem startRequest_eff (F : Framing σ) (s : State σ) (m : Nat) (r : Req) (q : List Cmd)
     (ha : s.alive = true) (hp : s.pos = .idle m) (hq : s.queue = .req r :: q) :
     TEff (core s) (core (startRequest F { s with queue := q } m r)) := by
@@ -252,13 +266,18 @@ theorem startRequest_eff (F : Framing σ) (s : State σ) (m : Nat) (r : Req) (q 
     exact TEff.dequeueFail (core s) m r q (.badReq e) ha hp hq (Or.inl ⟨e, rfl⟩)
   · rename_i pdu _
     split
-    · rw [core_finish]
-      exact TEff.dequeueFail (core s) m r q (.io .pipe) ha hp hq (Or.inr rfl)
-    · rename_i hw
-      generalize hb : isLatest _ m = b
-      cases b
-      · exact TEff.send (core s) m r q _ false ha hp hq
-      · exact TEff.send (core s) m r q _ true ha hp hq
+    · rename_i res st' rb' hd
+      rw [core_finish]
+      exact TEff.dequeueFail (core s) m r q res ha hp hq
+        (Or.inr (Or.inr (discardBuffered_err F _ _ _ res _ hd)))
+    · split
+      · rw [core_finish]
+        exact TEff.dequeueFail (core s) m r q (.io .pipe) ha hp hq (Or.inr (Or.inl rfl))
+      · rename_i hw
+        generalize hb : isLatest _ m = b
+        cases b
+        · exact TEff.send (core s) m r q _ false ha hp hq
+        · exact TEff.send (core s) m r q _ true ha hp hq
 
 theorem inflightIds_idle (m : Nat) : inflightIds (.idle m) = [] := rfl
 
